@@ -6,6 +6,7 @@ import (
 	"flag"
 	"fmt"
 	"os"
+	"runtime"
 	"runtime/debug"
 	"strings"
 	"time"
@@ -55,13 +56,17 @@ func Main() {
 			os.Exit(2)
 		}
 		var doc struct {
-			Case json.RawMessage `json:"case"`
+			Case  json.RawMessage `json:"case"`
+			Procs int             `json:"procs"`
 		}
 		if json.Unmarshal(b, &doc) != nil || len(doc.Case) == 0 {
 			fmt.Fprintln(os.Stderr, "replay file has no case")
 			os.Exit(2)
 		}
 		c.Replay = doc.Case
+		if doc.Procs > 0 {
+			runtime.GOMAXPROCS(doc.Procs)
+		}
 		if ch.Replay == nil {
 			fmt.Fprintln(os.Stderr, "check has no replayer")
 			os.Exit(2)
